@@ -581,6 +581,87 @@ def rw_R24(rf, a, b):
     return out
 
 
+def rw_R25(rf, a, b):
+    """`<place>.split('c')` -> verif_split_char(<place>, 'c');  `<place>.splitn(n, 'c')` -> verif_splitn_char(<place>, n, 'c')
+    (prelude/split.rs: str::Split is generic over Pattern, which this Verus cannot declare; same std call inside)"""
+    toks, sg, out = rf.toks, _sig(rf.toks, a, b), []
+    for k, i in enumerate(sg):
+        t = toks[i]
+        if t.kind != "ident" or t.text not in ("split", "splitn") or k == 0 or toks[sg[k - 1]].text != "." or toks[sg[k + 1]].text != "(":
+            continue
+        close = L.match_close(toks, sg[k + 1])
+        args = [toks[x] for x in range(sg[k + 1] + 1, close) if toks[x].kind not in ("ws", "comment")]
+        ok = (t.text == "split" and len(args) == 1 and args[0].kind == "char") or \
+             (t.text == "splitn" and len(args) == 3 and args[0].kind == "num" and args[1].text == "," and args[2].kind == "char")
+        if not ok:
+            continue
+        j = _recv_chain(toks, sg, k - 1)
+        if j is None:
+            continue
+        recv = L.text(toks, sg[j], sg[k - 1]).strip()
+        fn = "verif_split_char" if t.text == "split" else "verif_splitn_char"
+        out.append((Edit(sg[j], sg[k + 1] + 1, "%s(%s, " % (fn, recv), ("gen", "R25")), "R25 %s:%d `%s.%s(..)` -> %s" % (rf.rel, t.line, recv, t.text, fn)))
+    return out
+
+
+def _recv_expr(toks, sg, k):
+    """like _recv_chain, but the receiver may contain method calls: `ident(.ident | .ident(..))*`.  sg[k] is the `.` before
+    the method name; returns the index (into sg) of the first token of the receiver, or None"""
+    j = k - 1
+    while True:
+        if j < 0:
+            return None
+        if toks[sg[j]].text == ")":
+            depth = 0
+            while j >= 0:
+                tx = toks[sg[j]].text
+                if tx == ")":
+                    depth += 1
+                elif tx == "(":
+                    depth -= 1
+                    if depth == 0:
+                        break
+                j -= 1
+            j -= 1      # the method / function name
+            if j < 0 or toks[sg[j]].kind != "ident":
+                return None
+        elif toks[sg[j]].kind not in ("ident", "num"):
+            return None
+        if j - 1 >= 0 and toks[sg[j - 1]].text == ".":
+            j -= 2
+            continue
+        break
+    if toks[sg[j]].kind != "ident" or (j - 1 >= 0 and toks[sg[j - 1]].text in (")", "]", "?", "::")):
+        return None
+    return j
+
+
+def rw_R26(rf, a, b):
+    """`<place>.parse()` -> FromStr::from_str(<place>)   (str::parse is exactly that call; the target type is inferred as before)"""
+    toks, sg, out = rf.toks, _sig(rf.toks, a, b), []
+    for k, i in enumerate(sg):
+        t = toks[i]
+        if t.kind == "ident" and t.text == "parse" and k > 0 and toks[sg[k - 1]].text == "." and _seq_at(toks, sg, k + 1, ["(", ")"]):
+            j = _recv_expr(toks, sg, k - 1)
+            if j is None:
+                continue
+            recv = L.text(toks, sg[j], sg[k - 1]).strip()
+            out.append((Edit(sg[j], sg[k + 2] + 1, "FromStr::from_str(%s)" % recv, ("gen", "R26")), "R26 %s:%d `%s.parse()` -> FromStr::from_str(%s)" % (rf.rel, t.line, recv, recv)))
+    return out
+
+
+def rw_R27(rf, a, b):
+    """`ToOwned::to_owned` used as a function VALUE (e.g. `.map(ToOwned::to_owned)` on an `Option<&str>`) -> the closure
+    `|x: &str| x.to_owned()` with the contract vstd gives str::to_owned (a trait method path is not a value this Verus
+    accepts; if the argument is not a &str the unit no longer type-checks and the run is undecided)"""
+    toks, sg, out = rf.toks, _sig(rf.toks, a, b), []
+    for k, i in enumerate(sg):
+        if _seq_at(toks, sg, k, ["(", "ToOwned", ":", ":", "to_owned", ")"]):
+            out.append((Edit(sg[k + 1], sg[k + 4] + 1, "|__x: &str| -> (__r: String) ensures __r@ == __x@ { __x.to_owned() }", ("gen", "R27")),
+                        "R27 %s:%d `ToOwned::to_owned` as a function value -> |x: &str| x.to_owned()" % (rf.rel, toks[i].line)))
+    return out
+
+
 def rw_R19(rf, a, b):
     """Box::new(Cursor::new(x)) / Box::new(io::empty()) as body readers -> verif_cursor(x) / verif_empty(): local opaque
     reader types (Verus' trait-conflict checker cannot see std's `impl Read for Cursor<T>` / `Empty`); same-body wrappers."""
@@ -672,7 +753,7 @@ def rw_R5b(rf, a, b):
     return out
 
 
-REWRITES = {"R23": rw_R23, "R24": rw_R24, "R5b": rw_R5b, "R21": rw_R21, "R8": rw_R8, "R22": rw_R22, "R3b": rw_R3b, "R20": rw_R20, "R19": rw_R19, "R18": rw_R18, "R2b": rw_R2b, "R15": rw_R15, "R2": rw_R2, "R7": rw_R7, "R3": rw_R3, "R1": rw_R1, "R4": rw_R4, "R5": rw_R5, "R10": rw_R10, "R13": rw_R13, "R14": rw_R14}
+REWRITES = {"R27": rw_R27, "R26": rw_R26, "R25": rw_R25, "R23": rw_R23, "R24": rw_R24, "R5b": rw_R5b, "R21": rw_R21, "R8": rw_R8, "R22": rw_R22, "R3b": rw_R3b, "R20": rw_R20, "R19": rw_R19, "R18": rw_R18, "R2b": rw_R2b, "R15": rw_R15, "R2": rw_R2, "R7": rw_R7, "R3": rw_R3, "R1": rw_R1, "R4": rw_R4, "R5": rw_R5, "R10": rw_R10, "R13": rw_R13, "R14": rw_R14}
 
 
 # --------------------------------------------------------------------------------------------
@@ -798,6 +879,7 @@ class Unit:
         self.includes = []
         self.assumed = []
         self.required = []
+        self.lost_closures = {}   # fn -> closure selectors that matched nothing
         self.lost_ghost = {}   # fn -> ghost variables whose bookkeeping was attached to an optional anchor that is gone
 
     # -- template parsing --
@@ -1099,6 +1181,13 @@ class Unit:
                 depth -= 1
             elif depth == 0 and tx == "where":
                 where_idx = k
+        # the return type as written (used to annotate `let __r: T = ..` at exits; only when no rewrite touches it)
+        ret_ty = None
+        if arrow is not None:
+            tend0 = sgs[where_idx - 1] if where_idx is not None else sgs[-1]
+            rt = L.norm(L.text(toks, sgs[arrow + 2], tend0 + 1))
+            if not re.search(r"\b(dyn|impl)\b|Self|'", rt):
+                ret_ty = rt
         if fs.ret:
             if arrow is None:
                 raise Undecided("fn %s has no return type to name" % qual)
@@ -1171,7 +1260,11 @@ class Unit:
                 fs.closures[hits[0]] = (hdr, lno)
             elif len(hits) > 1:
                 raise Undecided("closure selector ~%s~ is ambiguous in %s (%d matches)" % (own, qual, len(hits)))
-            # no match: the closure is gone; the obligations that needed its contract will fail or not on their own
+            else:
+                # no match: the closure this contract was written for is gone or reads differently.  The function is
+                # still verified; if it verifies, fine -- if an obligation fails, that may be for want of this contract:
+                # such a failure is undecided, never an alarm
+                self.lost_closures.setdefault(qual, []).append(own)
         for k, (hdr, lno) in fs.closures.items():
             if k < 1 or k > len(cls):
                 raise Undecided("lost anchor: closure %d of %s (function has %d closures)" % (k, qual, len(cls)))
@@ -1378,7 +1471,7 @@ class Unit:
                         edits.append(Edit(i, i, "{ " + body_txt.replace("$r", "()"), org, order=-2))
                         edits.append(Edit(ee, ee, "; }", ("gen", "atexit")))
                     else:
-                        edits.append(Edit(i, i + 1, "{ let __r = ", org, order=-2))
+                        edits.append(Edit(i, i + 1, "{ let __r%s = " % (": " + ret_ty if ret_ty else ""), org, order=-2))
                         edits.append(Edit(ee, ee, ";\n" + body_txt.replace("$r", "__r") + "return __r; }", org))
             # 2. the tail expression
             depth = 0
@@ -1428,7 +1521,7 @@ class Unit:
                 te = be
                 while toks[te - 1].kind in ("ws", "comment"):
                     te -= 1
-                edits.append(Edit(tail_start, tail_start, "{ let __r = ", org, order=-2))
+                edits.append(Edit(tail_start, tail_start, "{ let __r%s = " % (": " + ret_ty if ret_ty else ""), org, order=-2))
                 edits.append(Edit(te, te, ";\n" + body_txt.replace("$r", "__r") + "__r }", org))
             elif arrow is None:
                 # unit function falling off the end
